@@ -100,6 +100,22 @@ func gridCases(thorough bool) []*caseSpec {
 			}
 		}
 	}
+	// Non-finite gradient component at the starting location (and a -Inf /
+	// +Inf / NaN function value there together with InitValues levels).
+	for _, m := range allMethodConfigs(false) {
+		for _, val := range []float64{math.NaN(), math.Inf(1), math.Inf(-1)} {
+			if m.usesGrad() {
+				add(m, setSpec{limF: 500}, 2)
+				cases[len(cases)-1].gft = fault{kind: faultFirst, val: val}
+				add(m, setSpec{limF: 500, init: 1}, 2)
+				cases[len(cases)-1].gft = fault{kind: faultFirst, val: val}
+			}
+			for _, s := range []setSpec{{limF: 500, rec: -2}, {limF: 500, conv: 1}, {limMaj: 5}, {limF: 500, gradThr: 1e-3}, {limF: 500, concurrent: 4}} {
+				add(m, s, 2)
+				cases[len(cases)-1].ft = fault{kind: faultFirst, val: val}
+			}
+		}
+	}
 	// Non-finite objective values inside a line search, without an
 	// evaluation limit (bounded-progress clause), and early stops of a
 	// re-used CmaEsChol.
@@ -277,6 +293,10 @@ func faultCase(r *vrt.Rand) *caseSpec {
 	}
 	if !cs.s.anyLimit() {
 		cs.s.limF = 200 + r.Intn(800)
+	}
+	if cs.m.usesGrad() && r.Chance(0.15) {
+		cs.ft = fault{}
+		cs.gft = fault{kind: faultFirst, val: val}
 	}
 	return cs
 }
